@@ -163,6 +163,118 @@ def gen_grid_history(rng):
     return h
 
 
+def splittings(digits, maxv):
+    """All ways to cut the digit string into decimal numbers in [1, maxv] without leading zeros."""
+    if not digits:
+        return [[]]
+    out = []
+    for n in (1, 2, 3):
+        if n <= len(digits):
+            head = digits[:n]
+            if head[0] == "0" or int(head) > maxv:
+                continue
+            for rest in splittings(digits[n:], maxv):
+                out.append([int(head)] + rest)
+    return out
+
+
+def gen_wide_history(rng):
+    """Many variables (60-150, indices with 1, 2 and 3 decimal digits), new_var interleaved with long runs of distinct requests
+    of different lengths; half of the histories request every construct over argument lists that are digit-wise re-splittings
+    of each other (b5 b7 b9 / b5 b79 / b57 b9 ...), in both polarities. Every request is judged (JQ) right after it."""
+    h = Hist()
+    nuser = rng.randint(60, 150)
+    first = rng.randint(nuser // 2, nuser)
+    for _ in range(first):
+        h.add("V")
+    created = first
+    h.nuser = nuser
+    h.tags.add("wide")
+
+    def more_vars():
+        nonlocal created
+        k = min(nuser - created, rng.randint(1, 12))
+        for _ in range(k):
+            h.add("V")
+        created += k
+
+    def lit(v, sign):
+        return 2 * v + (1 if sign else 0)
+
+    def request(kind, vs, signs):
+        args = [lit(v, sg) for v, sg in zip(vs, signs)]
+        if kind == "E":
+            if len(args) < 2:
+                return
+            args = args[:2]
+        h.add(kind, args)
+        h.nreq += 1
+        h.tags.add("wide-%s" % kind)
+
+    if rng.random() < 0.5:
+        h.tags.add("resplit")
+        for _ in range(rng.randint(2, 4)):
+            nd = rng.randint(3, 6)
+            digits = "".join(rng.choice("123456789" if i == 0 or rng.random() < 0.85 else "0123456789") for i in range(nd))
+            fam = [sp for sp in splittings(digits, created) if len(sp) == len(set(sp))]
+            rng.shuffle(fam)
+            fam = fam[:8]
+            kinds = rng.sample(["A", "O", "M", "X", "E"], rng.randint(2, 4))
+            for kind in kinds:
+                for pol in rng.sample([True, False], rng.choice([1, 2])):
+                    for sp in fam:
+                        vs = list(sp)
+                        rng.shuffle(vs)
+                        request(kind, vs, [pol] * len(vs))
+                        if rng.random() < 0.1 and created < nuser:
+                            more_vars()
+            if created < nuser and rng.random() < 0.7:
+                more_vars()
+    else:
+        n_req = rng.randint(20, 45)
+        for _ in range(n_req):
+            r = rng.random()
+            if r < 0.15 and created < nuser:
+                more_vars()
+                continue
+            if r < 0.2:
+                h.add("C", [lit(rng.randint(1, created), rng.random() < 0.5)])
+                h.tags.add("root-unit")
+                continue
+            kind = rng.choice(["E", "A", "O", "M", "X"])
+            k = 2 if kind == "E" else rng.choice([2, 2, 3, 3, 4, 5, 6, 8])
+            # mix 1-, 2- and 3-digit indices
+            pool = [rng.randint(1, min(9, created)), rng.randint(min(10, created), min(99, created)), rng.randint(min(100, created), created)]
+            vs = []
+            while len(vs) < k:
+                v = rng.choice(pool) if rng.random() < 0.3 else rng.randint(1, created)
+                if v not in vs:
+                    vs.append(v)
+            signs = [rng.random() < 0.6 for _ in vs]
+            request(kind, vs, signs)
+            if kind != "E" and rng.random() < 0.5:
+                # closely related argument lists for the same construct: prefix, one more argument, one variable replaced, one sign
+                # flipped, same index sum, same variables for another construct
+                h.tags.add("related-lists")
+                rel = []
+                if len(vs) > 2:
+                    rel.append((vs[:-1], signs[:-1]))
+                extra = rng.randint(1, created)
+                if extra not in vs:
+                    rel.append((vs + [extra], signs + [True]))
+                i = rng.randrange(len(vs))
+                repl = rng.randint(1, created)
+                if repl not in vs:
+                    rel.append((vs[:i] + [repl] + vs[i + 1:], signs))
+                rel.append((vs, signs[:i] + [not signs[i]] + signs[i + 1:]))
+                if len(vs) >= 2 and vs[0] + 1 <= created and vs[1] - 1 >= 1 and vs[0] + 1 not in vs and vs[1] - 1 not in vs and vs[0] + 1 != vs[1] - 1:
+                    rel.append(([vs[0] + 1, vs[1] - 1] + vs[2:], signs))
+                rng.shuffle(rel)
+                for rv, rs in rel[:rng.randint(1, 4)]:
+                    request(kind if rng.random() < 0.7 else rng.choice(["A", "O", "M", "X"]), rv, rs)
+    return h
+
+
 def corner_histories():
     """Hand-written boundary histories (always run first)."""
     out = []
